@@ -191,6 +191,20 @@ fn mutate(lines: &[&str], def: &(usize, String, String), how: &str) -> Option<St
             v[*li] = v[*li].replacen(def.2.as_str(), "UNDERGROUND-FLOOR", 1);
             Some(v.join("\n"))
         }
+        "crossref" => {
+            // one reference to this schedule now names an existing schedule of another kind (year / week / day): the name exists,
+            // but not among the definitions the reference is looked up in
+            const SCH: [&str; 3] = ["DAY-SCHEDULE-PD", "WEEK-SCHEDULE-PD", "SCHEDULE-PD"];
+            if !SCH.contains(&def.2.as_str()) {
+                return None;
+            }
+            let other = definitions(lines).into_iter().find(|d| SCH.contains(&d.2.as_str()) && d.2 != def.2 && d.1 != *name)?;
+            let quoted = format!("\"{}\"", name);
+            let at = lines.iter().enumerate().position(|(i, l)| i != *li && l.contains(&quoted) && !l.trim_start().starts_with('"'))?;
+            let mut v: Vec<String> = lines.iter().map(|s| s.to_string()).collect();
+            v[at] = v[at].replacen(&quoted, &format!("\"{}\"", other.1), 1);
+            Some(v.join("\n"))
+        }
         "remove" => {
             let end = (*li..lines.len().min(li + 400)).find(|&j| lines[j].trim() == "..")?;
             Some(lines[..*li].iter().chain(lines[end + 1..].iter()).copied().collect::<Vec<_>>().join("\n"))
@@ -227,9 +241,11 @@ pub fn run(args: &Args) -> i32 {
             let hosts: Vec<&(usize, String, String)> = defs.iter().filter(|d| WALL_KINDS.contains(&d.2.as_str())
                 && lines.get(d.0 + 1..).map_or(false, |rest| rest.iter().take_while(|l| !WALL_KINDS.iter().any(|k| l.trim_end().ends_with(&format!("= {k}"))) && !l.contains("= SPACE") && !l.contains("= FLOOR"))
                     .any(|l| l.trim_end().ends_with("= WINDOW")))).collect();
-            let d = if !hosts.is_empty() && rng.chance(1, 2) { (*rng.pick(&hosts)).clone() } else { rng.pick(&defs).clone() };
+            let scheds: Vec<&(usize, String, String)> = defs.iter().filter(|d| d.2.ends_with("SCHEDULE-PD")).collect();
+            let d = if !hosts.is_empty() && rng.chance(1, 2) { (*rng.pick(&hosts)).clone() } else if !scheds.is_empty() && rng.chance(1, 4) { (*rng.pick(&scheds)).clone() } else { rng.pick(&defs).clone() };
             let is_wall = WALL_KINDS.contains(&d.2.as_str());
-            let how = if is_wall { *rng.pick(&["remove", "retype", "retype"]) } else if rng.chance(1, 2) { "rename" } else { "remove" };
+            let is_sched = ["DAY-SCHEDULE-PD", "WEEK-SCHEDULE-PD", "SCHEDULE-PD"].contains(&d.2.as_str());
+            let how = if is_wall { *rng.pick(&["remove", "retype", "retype"]) } else if is_sched && rng.chance(1, 2) { "crossref" } else if rng.chance(1, 2) { "rename" } else { "remove" };
             if let Some(t2) = mutate(&lines, &d, how) {
                 let obs = observe(&t2, c);
                 // was the definition referenced elsewhere in the text?
